@@ -14,7 +14,7 @@ use passage_adapters::authentication::AuthenticationAdapter;
 use passage_adapters_http::MojangAdapter;
 use proptest::prelude::*;
 use serde::{Deserialize, Serialize};
-use serde_json::{Value, json};
+use serde_json::json;
 use std::sync::OnceLock;
 
 #[derive(Clone, Debug, Serialize, Deserialize, PartialEq)]
